@@ -73,11 +73,13 @@ Qed.
 Lemma permute_d_perm (T : dense V) p : wf_dense T -> is_perm p (length (dshape T)) ->
   permute_d v0 T p = Some (np_transpose v0 T p).
 Proof.
-  intros W Hp. unfold permute_d. rewrite (is_perm_length _ _ Hp), Nat.eqb_refl. cbn [negb].
-  destruct (forallb (Nat.eqb 1) p) eqn:Ha.
-  - destruct (all_ones_perm _ _ Hp Ha) as [-> HN]. rewrite np_transpose_nil; auto.
-    now apply length_zero_iff_nil.
-  - apply is_permb_spec in Hp. now rewrite Hp.
+  intros W Hp. unfold permute_d. pose proof (is_perm_length _ _ Hp) as HL. rewrite HL, Nat.eqb_refl. cbn [negb].
+  destruct (Nat.eqb_spec (length (dshape T)) 0) as [H0|H0].
+  - assert (p = []) as -> by (apply length_zero_iff_nil; lia).
+    rewrite np_transpose_nil; auto. now apply length_zero_iff_nil.
+  - destruct (Nat.eqb (length (dshape T)) 1 && forallb (Nat.eqb 1) p) eqn:Ha.
+    + apply andb_true_iff in Ha as [_ Ha]. destruct (all_ones_perm _ _ Hp Ha) as [_ HN]. lia.
+    + apply is_permb_spec in Hp. now rewrite Hp.
 Qed.
 
 Lemma den_transpose (T : dense V) p i : is_perm p (length (dshape T)) -> length i = length (dshape T) ->
